@@ -277,11 +277,9 @@ func genC20Corrupt(r *Rng) *Plan {
 	return g.P
 }
 
-func genC20Hostile(r *Rng) *Plan {
-	p := &Plan{Prop: "C20", Seed: r.U64(), GranNs: 1e6, Meta: map[string]string{"arm": "hostile"}}
+// hostileBase picks a schema-valid document (corpus or generated) to mutate.
+func hostileBase(r *Rng) (text string, isProfile bool) {
 	c := loadCorpus()
-	var text string
-	isProfile := false
 	switch r.Intn(5) {
 	case 0, 1:
 		text = Pick(r, c.configs)
@@ -301,15 +299,14 @@ func genC20Hostile(r *Rng) *Plan {
 		text = string(e.Render())
 	}
 	if !json.Valid([]byte(text)) {
-		// YAML corpus entries (the two example files): convert through the ordered JSON route is not possible;
-		// they are mutated at byte level in the corrupt/direct arms instead
+		// YAML corpus entries (the two example files) are mutated at byte level in the corrupt/direct arms instead
 		text = `{"version":1,"subject":"CN=Fallback"}`
 	}
-	mut, desc, ok := mutateDoc(r, text)
-	if !ok {
-		mut, desc = text, "none"
-	}
-	p.Meta["hostile"] = desc
+	return
+}
+
+func hostilePlan(seed uint64, mut, desc string, isProfile bool, second uint8) *Plan {
+	p := &Plan{Prop: "C20", Seed: seed, GranNs: 1e6, Meta: map[string]string{"arm": "hostile", "hostile": desc}}
 	p.Add(Op{K: "put-ent", Spec: &EntitySpec{ID: "root", Name: "root", Ext: "yaml", Subject: []RDN{{"CN", "Root"}}}})
 	if isProfile {
 		p.Add(Op{K: "put-file", Path: "prof.json", Data: mut})
@@ -321,10 +318,71 @@ func genC20Hostile(r *Rng) *Plan {
 		p.Add(Op{K: "put-file", Path: "my-certificate-authority.yaml", Data: "version: 1\nsubject: CN=CA\n"})
 	}
 	p.Add(Op{K: "run", Flags: DefaultFlags, Tags: []string{"decide"}})
-	if r.Chance(1, 3) {
-		p.Add(Op{K: "run", Flags: uint8(r.Intn(32)), Tags: []string{"decide"}})
+	if second != 0 {
+		p.Add(Op{K: "run", Flags: second, Tags: []string{"decide"}})
 	}
 	return p
+}
+
+func genC20Hostile(r *Rng) *Plan {
+	text, isProfile := hostileBase(r)
+	mut, desc, ok := mutateDoc(r, text)
+	if !ok {
+		mut, desc = text, "none"
+	}
+	var second uint8
+	if r.Chance(1, 3) {
+		second = uint8(1 + r.Intn(31))
+	}
+	return hostilePlan(r.U64(), mut, desc, isProfile, second)
+}
+
+// enumHostile replaces EVERY scalar slot of one document, one at a time, by the minimal hostile
+// value of its type (empty string / -1 / 0 / flipped bool) and every container by an empty one.
+func enumHostile(r *Rng, text string) (muts []string, descs []string) {
+	doc0 := parseOrdered([]byte(text))
+	var probe []slot
+	h0 := []any{doc0}
+	collectSlots(h0[0], func(nv any) { h0[0] = nv }, &probe)
+	for i := range probe {
+		holder := []any{parseOrdered([]byte(text))}
+		var slots []slot
+		collectSlots(holder[0], func(nv any) { holder[0] = nv }, &slots)
+		if i >= len(slots) {
+			break
+		}
+		var vals []any
+		switch slots[i].cur.(type) {
+		case string:
+			vals = []any{""}
+		case json.Number:
+			vals = []any{int64(-1), int64(0)}
+		case bool:
+			continue
+		case OM:
+			vals = []any{OM{}}
+		case []any:
+			vals = []any{[]any{}}
+		default:
+			vals = []any{""}
+		}
+		v := Pick(r, vals)
+		slots[i].set(v)
+		var bb bytes.Buffer
+		switch holder[0].(type) {
+		case OM, []any:
+			emitJSON(&bb, holder[0], "", "")
+		default:
+			continue
+		}
+		d, _ := scalarText(v)
+		if d == "" {
+			d = fmt.Sprintf("empty-%T", v)
+		}
+		muts = append(muts, bb.String())
+		descs = append(descs, fmt.Sprintf("slot%d:=%s", i, d))
+	}
+	return
 }
 
 // genC20Merge: schema-valid profile x certificate combinations that exercise Validate and Merge:
@@ -558,6 +616,20 @@ func exploreC20(t *testing.T, seed uint64, idx int, tier string, sink *Sink) {
 		plan = genC20States(r)
 	default:
 		plan = genC20Direct(r, pemSeedCorpus(t))
+	}
+	if plan.Meta["arm"] == "hostile" && idx%32 == 3 {
+		// enumeration: every slot of one document, minimal hostile value each
+		text, isProfile := hostileBase(r)
+		muts, descs := enumHostile(r, text)
+		seed := r.U64()
+		for i := range muts {
+			pl := hostilePlan(seed, muts[i], descs[i], isProfile, 0)
+			pl.Meta["enum"] = "1"
+			w := execC20(t, pl)
+			w.SigExtra += "enum:" + descs[i]
+			sink.Cell("arm:hostile-enumerated")
+			sink.Report(w)
+		}
 	}
 	w := execC20(t, plan)
 	sink.Cell("arm:" + plan.Meta["arm"])
